@@ -7,31 +7,239 @@ import (
 	"os"
 	"path/filepath"
 	"strings"
+	"sync"
 
+	"github.com/ipfs/go-cid"
+	carv2 "github.com/ipld/go-car/v2"
 	"github.com/ipld/go-car/v2/storage"
 	"github.com/ipld/go-car/v2/storage/deferred"
+	"github.com/ipld/go-ipld-prime/linking"
+	cidlink "github.com/ipld/go-ipld-prime/linking/cid"
 
 	"verif/drv"
 	"verif/kit"
 )
 
+// C20Case is one operation sequence over one target/configuration.
+//
+// Targets:
+//
+//	path         NewDeferredCarWriterForPath, nothing at the path (or, with Pre, a longer file)
+//	path-nodir   ForPath, the parent directory of the path is missing until the op "fix" creates it
+//	path-isdir   ForPath, the path is an (empty) directory until the op "fix" removes it
+//	stream       NewDeferredCarWriterForStream over a plain io.Writer (that also has a counting Close)
+//	stream-file  ForStream over a caller-opened file: io.Writer + io.WriterAt (+ counting Close)
+//
+// Ops:
+//
+//	put:X        Put of alphabet block X ("bad" = a key that is not a CID)
+//	has:X        Has of alphabet block X
+//	cb, cb1      OnPut(always) / OnPut(once)
+//	cbreg,cbreg1 OnPut(always / once) of a callback that, on its first invocation, registers a further once-callback
+//	bwo:X        BlockWriteOpener: open, write X's data, commit with X's link (= one Put)
+//	bwo-open:X   open + write only; the commit is the later op "bwo-commit" (at most one pending writer)
+//	close        Close
+//	fix          removes the obstacle of path-nodir / path-isdir (harness action, not a writer call)
 type C20Case struct {
-	Target string   `json:"target"` // path, stream
+	Target string   `json:"target"`
 	Opts   drv.Opts `json:"opts"`
 	Ops    []string `json:"ops"`
-	Pre    bool     `json:"pre,omitempty"` // a longer file already exists at the target path
+	Pre    bool     `json:"pre,omitempty"`   // a longer file already exists at the target path
+	V1Off  bool     `json:"v1off,omitempty"` // the caller passes WriteAsCarV1(false) explicitly (last option)
+	Roots  string   `json:"roots,omitempty"` // kit root set; "" = "a"
 }
 
 var c20Ops = []string{"put:a", "put:b", "has:a", "cb", "cb1", "close", "has:b"}
 
+// c20Stats counts what the deferred writer does to a caller-owned stream.
+type c20Stats struct {
+	writes int // Write + WriteAt calls, zero-length ones included
+	closes int
+}
+
+// c20Stream is a plain io.Writer. It also has a Close method: the stream belongs to the caller,
+// the writer must never call it.
+type c20Stream struct {
+	b  *bytes.Buffer
+	st *c20Stats
+}
+
+func (p c20Stream) Write(b []byte) (int, error) { p.st.writes++; return p.b.Write(b) }
+func (p c20Stream) Close() error                { p.st.closes++; return nil }
+
+// c20File is a caller-opened file handed over as a stream: io.Writer + io.WriterAt.
+type c20File struct {
+	f  *os.File
+	st *c20Stats
+}
+
+func (p c20File) Write(b []byte) (int, error) { p.st.writes++; return p.f.Write(b) }
+func (p c20File) WriteAt(b []byte, off int64) (int, error) {
+	p.st.writes++
+	return p.f.WriteAt(b, off)
+}
+func (p c20File) Close() error { p.st.closes++; return nil }
+
+// c20Mem is the reference's "file": io.Writer + io.WriterAt with the semantics of a freshly created
+// file opened without O_APPEND (Write at the file offset, WriteAt anywhere, holes read as zeros).
+type c20Mem struct {
+	b   []byte
+	off int64
+}
+
+func (m *c20Mem) WriteAt(p []byte, off int64) (int, error) {
+	if end := off + int64(len(p)); end > int64(len(m.b)) {
+		m.b = append(m.b, make([]byte, end-int64(len(m.b)))...)
+	}
+	copy(m.b[off:], p)
+	return len(p), nil
+}
+
+func (m *c20Mem) Write(p []byte) (int, error) {
+	n, err := m.WriteAt(p, m.off)
+	m.off += int64(n)
+	return n, err
+}
+
+// drvPlain hides everything but Write (used for the reference writer).
+type drvPlain struct{ b *bytes.Buffer }
+
+func (p drvPlain) Write(b []byte) (int, error) { return p.b.Write(b) }
+
+// c20List lists dir (names only, directories with a trailing slash and their entries).
+func c20List(dir string) string {
+	ents, _ := os.ReadDir(dir)
+	var sb strings.Builder
+	for _, e := range ents {
+		sb.WriteString(e.Name())
+		if e.IsDir() {
+			sb.WriteString("/[")
+			sb.WriteString(c20List(filepath.Join(dir, e.Name())))
+			sb.WriteString("]")
+		}
+		sb.WriteString(",")
+	}
+	return sb.String()
+}
+
+var c20DirCache sync.Map // worker scratch dir -> [2]string
+
+// c20Dirs returns (creating them once per worker) the directory of the deferred writer's target,
+// with symlinks resolved so that /proc/self/fd links can be compared, and the reference's directory.
+func c20Dirs(base string) (string, string) {
+	if v, ok := c20DirCache.Load(base); ok {
+		d := v.([2]string)
+		return d[0], d[1]
+	}
+	ddir := filepath.Join(base, "c20d")
+	rdir := filepath.Join(base, "c20r")
+	for _, d := range []string{ddir, rdir} {
+		os.RemoveAll(d)
+		if err := os.MkdirAll(d, 0o755); err != nil {
+			panic(err)
+		}
+	}
+	if r, err := filepath.EvalSymlinks(ddir); err == nil {
+		ddir = r
+	}
+	c20DirCache.Store(base, [2]string{ddir, rdir})
+	return ddir, rdir
+}
+
+// c20OpenFDs counts the descriptors of this process that refer to path.
+func c20OpenFDs(path string) int {
+	ents, err := os.ReadDir("/proc/self/fd")
+	if err != nil {
+		return 0
+	}
+	n := 0
+	for _, e := range ents {
+		if l, err := os.Readlink("/proc/self/fd/" + e.Name()); err == nil && l == path {
+			n++
+		}
+	}
+	return n
+}
+
+type c20Cb struct {
+	id      int
+	once    bool
+	spawn   bool // registers a once-callback (id+1000) on its first invocation
+	spawned bool
+}
+
+// c20Fire models one Put over the registered callbacks: every callback once, in registration
+// order, once-callbacks removed. samePut selects whether a callback registered from inside a
+// callback takes part in the Put that is in progress (after all earlier registrations) or only
+// from the next Put on; the property fixes neither, so both models are kept.
+func c20Fire(list []c20Cb, log []string, n int, samePut bool) ([]c20Cb, []string) {
+	var later []c20Cb
+	for i := 0; i < len(list); i++ {
+		r := list[i]
+		log = append(log, fmt.Sprintf("%d:%d", r.id, n))
+		if r.spawn && !r.spawned {
+			list[i].spawned = true
+			child := c20Cb{id: r.id + 1000, once: true}
+			if samePut {
+				list = append(list, child)
+			} else {
+				later = append(later, child)
+			}
+		}
+		if r.once {
+			list = append(list[:i], list[i+1:]...)
+			i--
+		}
+	}
+	return append(list, later...), log
+}
+
 func runC20(c any, x *kit.Ctx) {
 	cs := c.(C20Case)
-	roots, _, _ := kit.Roots("a")
+	rootSet := cs.Roots
+	if rootSet == "" {
+		rootSet = "a"
+	}
+	roots, _, _ := kit.Roots(rootSet)
 	opts := cs.Opts.List()
-	dpath := filepath.Join(x.Dir, "c20-deferred.car")
-	rpath := filepath.Join(x.Dir, "c20-direct.car")
-	os.Remove(dpath)
-	os.Remove(rpath)
+	if cs.V1Off {
+		opts = append(opts, carv2.WriteAsCarV1(false))
+	}
+	// the deferred writer and the reference work in two separate directories, so that everything
+	// the deferred writer creates (not only the target file) is visible in a listing of ddir
+	ddir, rdir := c20Dirs(x.Dir)
+	dpath := filepath.Join(ddir, "c20-deferred.car")
+	rpath := filepath.Join(rdir, "c20-direct.car")
+	cleanup := []string{dpath}
+	defer func() {
+		for _, p := range cleanup {
+			os.Remove(p)
+		}
+		// anything else the writer left behind must not leak into the next case of this worker
+		if ents, _ := os.ReadDir(ddir); len(ents) > 0 {
+			for _, e := range ents {
+				os.RemoveAll(filepath.Join(ddir, e.Name()))
+			}
+		}
+	}()
+	isPath := strings.HasPrefix(cs.Target, "path")
+	obstacle := false
+	switch cs.Target {
+	case "path-nodir":
+		dpath = filepath.Join(ddir, "missing", "c20-deferred.car")
+		rpath = filepath.Join(rdir, "missing", "c20-direct.car")
+		cleanup = []string{dpath, rpath, filepath.Dir(dpath), filepath.Dir(rpath)}
+		obstacle = true
+	case "path-isdir":
+		if err := os.Mkdir(dpath, 0o755); err != nil {
+			panic(err)
+		}
+		if err := os.Mkdir(rpath, 0o755); err != nil {
+			panic(err)
+		}
+		cleanup = []string{dpath, rpath}
+		obstacle = true
+	}
 	var preBytes []byte
 	if cs.Pre && cs.Target == "path" {
 		preBytes = bytes.Repeat([]byte("old export "), 400)
@@ -39,67 +247,233 @@ func runC20(c any, x *kit.Ctx) {
 			panic(err)
 		}
 	}
-	defer os.Remove(dpath)
-	defer os.Remove(rpath)
 	var dbuf, rbuf bytes.Buffer
+	var dst c20Stats
+	var rmem c20Mem    // the reference's file (path targets, stream-file)
+	var dfile *os.File // stream-file: the caller's file
 	var dw *deferred.DeferredCarWriter
-	if cs.Target == "path" {
+	switch cs.Target {
+	case "path", "path-nodir", "path-isdir":
 		dw = deferred.NewDeferredCarWriterForPath(dpath, roots, opts...)
-	} else {
-		dw = deferred.NewDeferredCarWriterForStream(drvPlain{&dbuf}, roots, opts...)
+	case "stream":
+		dw = deferred.NewDeferredCarWriterForStream(c20Stream{&dbuf, &dst}, roots, opts...)
+	case "stream-file":
+		var err error
+		if dfile, err = os.Create(dpath); err != nil {
+			panic(err)
+		}
+		defer dfile.Close()
+		dw = deferred.NewDeferredCarWriterForStream(c20File{dfile, &dst}, roots, opts...)
+	default:
+		panic("unknown target " + cs.Target)
 	}
 	x.Eval(1)
 	// release the lazily opened file even when the sequence never closes the writer
 	// (millions of cases would otherwise exhaust the file descriptors before the GC runs finalizers)
 	defer dw.Close()
-	// reference: a directly constructed writer, created at the first Put
+	baseList := c20List(ddir)
+
+	// reference: a directly constructed writer, created at the first Put (the moment a caller
+	// without the deferred writer would open the file / construct the writer)
 	var direct storage.WritableCar
-	var rf *os.File
-	defer func() {
-		if rf != nil {
-			rf.Close()
+	// what the deferred stream constructor documents: CARv1 by default, the caller's options after it
+	directOpts := opts
+	if !isPath {
+		directOpts = append([]carv2.Option{carv2.WriteAsCarV1(true)}, opts...)
+	}
+	var refInitErr error // a stream whose writer could not be constructed: a direct caller has no writer
+	initFailed := false  // some Put found the target impossible to open / the writer impossible to construct
+	started := false     // the reference writer exists: from now on the outputs must be identical
+	refPut := func(key string, data []byte) error {
+		if direct == nil {
+			if refInitErr != nil {
+				return refInitErr
+			}
+			var w storage.WritableCar
+			var err error
+			switch {
+			case isPath:
+				// a direct caller opens the file first. Whether that is possible is decided by the file
+				// system (rpath has the same obstacle as dpath); the bytes then go to an in-memory file.
+				if cs.Target != "path" {
+					var f *os.File
+					if f, err = os.OpenFile(rpath, os.O_CREATE|os.O_TRUNC|os.O_WRONLY, 0o644); err == nil {
+						f.Close()
+						os.Remove(rpath)
+					}
+				}
+				if err == nil {
+					w, err = storage.NewWritable(&rmem, roots, directOpts...)
+				}
+			case cs.Target == "stream":
+				if w, err = storage.NewWritable(drvPlain{&rbuf}, roots, directOpts...); err != nil {
+					refInitErr = err
+				}
+			default:
+				if w, err = storage.NewWritable(&rmem, roots, directOpts...); err != nil {
+					refInitErr = err
+				}
+			}
+			if err != nil {
+				initFailed = true
+				x.Count("failed_inits", 1)
+				return err
+			}
+			direct = w
+			started = true
 		}
-	}()
-	directOpts := cs.Opts
-	if cs.Target == "stream" {
-		directOpts.V1 = true
+		return direct.Put(drv.Ctx, key, data)
 	}
-	type cbReg struct {
-		id   int
-		once bool
-	}
-	var model []cbReg
-	var gotLog, wantLog []string
+
+	var modelA, modelB []c20Cb // callbacks registered from a callback join the running Put / the next Put
+	var gotLog, wantA, wantB []string
 	nextID := 0
 	closed := false
-	started := false
 	fail := func(i int, sig, f string, a ...any) {
 		x.Fail("c20:"+sig+":"+cs.Target, "after %v: "+f, append([]any{cs.Ops[:i+1]}, a...)...)
 	}
+	// info: behaviour the documentation describes but the property statement does not fix (callbacks run before the
+	// Put writes, the caller's stream is never closed, no descriptor outlives Close). Recorded as an outcome class
+	// of the evidence, never as a violation.
+	info := func(i int, sig, f string, a ...any) {
+		x.Outcome("beyond-statement:" + sig + ":" + cs.Target)
+	}
 	output := func() (exists bool, b []byte) {
-		if cs.Target == "path" {
+		switch {
+		case isPath:
 			b, err := os.ReadFile(dpath)
 			return err == nil, b
+		case cs.Target == "stream":
+			return dbuf.Len() > 0 || dst.writes > 0, dbuf.Bytes()
+		default:
+			b, _ := os.ReadFile(dpath)
+			return len(b) > 0 || dst.writes > 0, b
 		}
-		return dbuf.Len() > 0, dbuf.Bytes()
 	}
 	directBytes := func() []byte {
-		if cs.Target == "path" {
-			b, _ := os.ReadFile(rpath)
-			return b
+		switch {
+		case isPath, cs.Target == "stream-file":
+			return rmem.b
 		}
 		return rbuf.Bytes()
 	}
+
+	// callback-time observation: OnPut documents that the callback is called "when each Put()
+	// operation is started" (its use: set HTTP headers before the first byte is streamed), so at
+	// callback time the output must still be what it was before the Put
+	var preExists bool
+	var preOut []byte
+	var preWrites int
+	cbTiming := ""
+	record := func(id, n int) {
+		gotLog = append(gotLog, fmt.Sprintf("%d:%d", id, n))
+		ex, out := output()
+		if cbTiming == "" && (ex != preExists || dst.writes != preWrites || !bytes.Equal(out, preOut)) {
+			cbTiming = fmt.Sprintf("callback %d ran with output exists=%v len=%d writes=%d; before the Put: exists=%v len=%d writes=%d",
+				id, ex, len(out), dst.writes, preExists, len(preOut), preWrites)
+		}
+	}
+	register := func(once, spawn bool) {
+		id := nextID
+		nextID++
+		fired := false
+		dw.OnPut(func(n int) {
+			record(id, n)
+			if spawn && !fired {
+				fired = true
+				x.Count("reentrant_registrations", 1)
+				dw.OnPut(func(n int) { record(id+1000, n) }, true)
+			}
+		}, once)
+		modelA = append(modelA, c20Cb{id: id, once: once, spawn: spawn})
+		modelB = append(modelB, c20Cb{id: id, once: once, spawn: spawn})
+	}
+
+	// one Put, through whichever entry point `call` uses
+	doPut := func(i int, key string, data []byte, call func() error) {
+		if closed {
+			if err := call(); !errors.Is(err, storage.ErrClosed) {
+				fail(i, "put-after-close", "Put returned %v want ErrClosed", err)
+			}
+			return
+		}
+		if nextID > 0 { // some callback was registered (whether or not the model still expects it to fire)
+			ex, out := output()
+			preExists, preOut, preWrites = ex, append([]byte(nil), out...), dst.writes
+		}
+		err := call()
+		// callbacks: once per Put in registration order; once-callbacks exactly once
+		modelA, wantA = c20Fire(modelA, wantA, len(data), true)
+		modelB, wantB = c20Fire(modelB, wantB, len(data), false)
+		if cbTiming != "" {
+			info(i, "callback-timing", "%s", cbTiming)
+		}
+		hadFailed := initFailed
+		wasStarted := started
+		derr := refPut(key, data)
+		if (err != nil) != (derr != nil) {
+			if err != nil && !wasStarted && hadFailed {
+				fail(i, "put-retry-after-failed-open", "Put returned %v after an earlier failed initialisation; a direct writer can be created now and its Put returns %v", err, derr)
+			} else {
+				fail(i, "put-result", "Put returned %v, the direct writer %v", err, derr)
+			}
+		}
+		if started && !wasStarted && direct != nil {
+			if isIdentityKey(key) && !cs.Opts.StoreID {
+				x.Count("first_put_writes_no_section", 1)
+			}
+		}
+	}
+
+	type pendingBWO struct {
+		key    string
+		data   []byte
+		commit linking.BlockWriteCommitter
+		link   cidlink.Link
+	}
+	var pending *pendingBWO
+	bwoOpen := func(i int, name string) *pendingBWO {
+		b := kit.B(name)
+		w, commit, err := dw.BlockWriteOpener()(linking.LinkContext{Ctx: drv.Ctx})
+		if err != nil {
+			// opening only buffers; the store is touched by the commit. After Close an error is acceptable.
+			if !closed {
+				fail(i, "bwo-open", "BlockWriteOpener returned %v", err)
+			}
+			return nil
+		}
+		// two writes, so that the committed content is the concatenation
+		h := len(b.Data) / 2
+		if _, err := w.Write(b.Data[:h]); err != nil {
+			fail(i, "bwo-open", "block writer Write returned %v", err)
+		}
+		if _, err := w.Write(b.Data[h:]); err != nil {
+			fail(i, "bwo-open", "block writer Write returned %v", err)
+		}
+		return &pendingBWO{key: b.Cid.KeyString(), data: b.Data, commit: commit, link: cidlink.Link{Cid: b.Cid}}
+	}
+
 	for i, op := range cs.Ops {
 		x.Transition(1)
 		kind, arg, _ := strings.Cut(op, ":")
 		switch kind {
 		case "cb", "cb1":
-			id := nextID
-			nextID++
-			once := kind == "cb1"
-			dw.OnPut(func(n int) { gotLog = append(gotLog, fmt.Sprintf("%d:%d", id, n)) }, once)
-			model = append(model, cbReg{id, once})
+			register(kind == "cb1", false)
+		case "cbreg", "cbreg1":
+			register(kind == "cbreg1", true)
+		case "fix":
+			if obstacle && !started {
+				switch cs.Target {
+				case "path-nodir":
+					os.Mkdir(filepath.Dir(dpath), 0o755)
+					os.Mkdir(filepath.Dir(rpath), 0o755)
+				case "path-isdir":
+					os.Remove(dpath)
+					os.Remove(rpath)
+				}
+				obstacle = false
+				baseList = c20List(ddir)
+			}
 		case "has":
 			b := kit.B(arg)
 			has, err := dw.Has(drv.Ctx, b.Cid.KeyString())
@@ -109,50 +483,45 @@ func runC20(c any, x *kit.Ctx) {
 				}
 				break
 			}
-			want := false
 			if direct != nil {
-				want, _ = direct.Has(drv.Ctx, b.Cid.KeyString())
-			}
-			if err != nil || has != want {
-				fail(i, "has", "Has(%s)=%v,%v want %v", arg, has, err, want)
-			}
-		case "put":
-			b := kit.B(arg)
-			err := dw.Put(drv.Ctx, b.Cid.KeyString(), b.Data)
-			if closed {
-				if !errors.Is(err, storage.ErrClosed) {
-					fail(i, "put-after-close", "Put returned %v want ErrClosed", err)
+				want, werr := direct.Has(drv.Ctx, b.Cid.KeyString())
+				if (err != nil) != (werr != nil) || has != want {
+					fail(i, "has", "Has(%s)=%v,%v; the direct writer: %v,%v", arg, has, err, want, werr)
 				}
 				break
 			}
-			// callbacks: once per Put in registration order; once-callbacks exactly once
-			var keep []cbReg
-			for _, r := range model {
-				wantLog = append(wantLog, fmt.Sprintf("%d:%d", r.id, len(b.Data)))
-				if !r.once {
-					keep = append(keep, r)
-				}
+			// nothing was put yet. Not fixed by the property: the answer for an identity CID (a direct
+			// writer that does not store identity CIDs would say true) and the answer after a failed
+			// initialisation
+			if isIdentityKey(b.Cid.KeyString()) || initFailed {
+				x.Count("has_unasserted", 1)
+				break
 			}
-			model = keep
-			if direct == nil {
-				var err error
-				if cs.Target == "path" {
-					rf, err = os.OpenFile(rpath, os.O_CREATE|os.O_TRUNC|os.O_WRONLY, 0o644)
-					if err != nil {
-						panic(err)
-					}
-					direct, err = storage.NewWritable(rf, roots, directOpts.List()...)
-				} else {
-					direct, err = storage.NewWritable(drvPlain{&rbuf}, roots, directOpts.List()...)
-				}
-				if err != nil {
-					panic(err)
-				}
-				started = true
+			if err != nil || has {
+				fail(i, "has", "Has(%s)=%v,%v want false before the first Put", arg, has, err)
 			}
-			derr := direct.Put(drv.Ctx, b.Cid.KeyString(), b.Data)
-			if (err != nil) != (derr != nil) {
-				fail(i, "put-result", "Put returned %v, the direct writer %v", err, derr)
+		case "put":
+			key, data := "bad-key", []byte("x")
+			if arg != "bad" {
+				b := kit.B(arg)
+				key, data = b.Cid.KeyString(), b.Data
+			}
+			doPut(i, key, data, func() error { return dw.Put(drv.Ctx, key, data) })
+		case "bwo":
+			if p := bwoOpen(i, arg); p != nil {
+				x.Count("bwo_commits", 1)
+				doPut(i, p.key, p.data, func() error { return p.commit(p.link) })
+			}
+		case "bwo-open":
+			if p := bwoOpen(i, arg); p != nil {
+				pending = p
+			}
+		case "bwo-commit":
+			if pending != nil {
+				p := pending
+				pending = nil
+				x.Count("bwo_commits", 1)
+				doPut(i, p.key, p.data, func() error { return p.commit(p.link) })
 			}
 		case "close":
 			err := dw.Close()
@@ -163,7 +532,8 @@ func runC20(c any, x *kit.Ctx) {
 				break
 			}
 			closed = true
-			if err != nil {
+			// (what Close returns after an initialisation that never succeeded is not fixed by the property)
+			if err != nil && !(initFailed && !started) {
 				fail(i, "close-error", "Close returned %v", err)
 			}
 			if direct != nil {
@@ -171,82 +541,163 @@ func runC20(c any, x *kit.Ctx) {
 					panic(err)
 				}
 			}
+			// "Closing the writer will close, but not delete, the underlying file": no descriptor of
+			// the target may stay open
+			if isPath && (started || initFailed) { // (otherwise nothing was ever opened: the listing above all steps shows it)
+				if n := c20OpenFDs(dpath); n != 0 {
+					info(i, "fd-leak", "%d descriptor(s) of the target file are still open after Close", n)
+				}
+			}
+		default:
+			panic("unknown op " + op)
 		}
 		// observers after every step
-		exists, got := output()
+		var dfileSize int64 = -1
+		if dfile != nil {
+			// the stream belongs to the caller: never closed by the writer
+			if fi, err := dfile.Stat(); err != nil {
+				info(i, "stream-closed", "the caller's file is no longer usable: %v", err)
+			} else {
+				dfileSize = fi.Size()
+			}
+		}
+		if dst.closes != 0 {
+			info(i, "stream-closed", "the caller's stream was closed %d time(s)", dst.closes)
+		}
 		if !started {
-			if preBytes != nil {
-				if !bytes.Equal(got, preBytes) {
-					fail(i, "eager-output", "the existing file at the target path was touched before the first Put")
+			switch cs.Target {
+			case "stream":
+				if dbuf.Len() > 0 || dst.writes > 0 {
+					fail(i, "eager-output", "output exists (%d bytes, %d write calls) before the first successful initialisation", dbuf.Len(), dst.writes)
 				}
-			} else if exists {
-				fail(i, "eager-output", "output exists (%d bytes) before the first Put", len(got))
+			case "stream-file":
+				if dfileSize > 0 || dst.writes > 0 {
+					fail(i, "eager-output", "output exists (%d bytes, %d write calls) before the first successful initialisation", dfileSize, dst.writes)
+				}
+				fallthrough
+			default:
+				// no file at the target and nothing else created next to it
+				if l := c20List(ddir); l != baseList {
+					fail(i, "eager-output", "the directory of the target changed before the first successful initialisation: [%s] was [%s]", l, baseList)
+				}
+				if preBytes != nil {
+					if got, _ := os.ReadFile(dpath); !bytes.Equal(got, preBytes) {
+						fail(i, "eager-output", "the existing file at the target path was touched before the first Put")
+					}
+				}
 			}
 		} else {
+			_, got := output()
 			if want := directBytes(); !bytes.Equal(got, want) {
 				fail(i, "bytes-differ", "output (%d bytes) differs from the directly constructed writer's (%d bytes): %x vs %x", len(got), len(want), clip(got), clip(want))
 			}
 		}
-		if strings.Join(gotLog, ",") != strings.Join(wantLog, ",") {
-			fail(i, "callbacks", "callback log %v want %v", gotLog, wantLog)
+		if g := strings.Join(gotLog, ","); g != strings.Join(wantA, ",") && g != strings.Join(wantB, ",") {
+			if strings.Join(wantA, ",") == strings.Join(wantB, ",") {
+				fail(i, "callbacks", "callback log %v want %v", gotLog, wantA)
+			} else {
+				fail(i, "callbacks", "callback log %v want %v (callbacks registered from a callback join the running Put) or %v (join the next Put)", gotLog, wantA, wantB)
+			}
 		}
 		if x.Failed() {
 			return
 		}
 	}
-	x.State(fmt.Sprintf("%s|%+v|%v", cs.Target, cs.Opts, cs.Ops))
-	x.Outcome(fmt.Sprintf("started=%v closed=%v cbs=%d", started, closed, len(wantLog) > 0))
-	if started && len(wantLog) > 0 {
-		x.Nontrivial(fmt.Sprintf("%s|%+v|%v", cs.Target, cs.Opts, cs.Ops))
+	key := fmt.Sprintf("%s|%+v|%v|%v|%s|%v", cs.Target, cs.Opts, cs.V1Off, cs.Pre, rootSet, cs.Ops)
+	x.State(key)
+	x.Outcome(fmt.Sprintf("started=%v closed=%v cbs=%v initFailed=%v", started, closed, len(wantA) > 0, initFailed))
+	if started && len(wantA) > 0 {
+		x.Nontrivial(key)
 	}
 }
 
-type drvPlain struct{ b *bytes.Buffer }
+// isIdentityKey reports whether the binary CID key uses the identity multihash.
+func isIdentityKey(key string) bool {
+	c, err := cid.Cast([]byte(key))
+	return err == nil && c.Prefix().MhType == 0
+}
 
-func (p drvPlain) Write(b []byte) (int, error) { return p.b.Write(b) }
+type c20Cfg struct {
+	target string
+	o      drv.Opts
+	v1off  bool
+	roots  string
+	pre    bool
+}
+
+// c20Family is one explicitly enumerated sub-space: every sequence of exactly `depth` ops over the
+// alphabet (shorter sequences are covered as prefixes: observers run after every step) x configurations.
+type c20Family struct {
+	name         string
+	ops          []string
+	quick, thoro int // depth per tier
+	cfgs         []c20Cfg
+}
+
+var c20Padded = drv.Opts{DataPad: 3, IndexPad: 2, Codec: "sorted"}
+
+var c20Families = []c20Family{
+	// the original space
+	{"core", c20Ops, 5, 7, []c20Cfg{
+		{target: "path"}, {target: "path", o: c20Padded}, {target: "path", o: drv.Opts{V1: true}},
+		{target: "stream"}, {target: "stream", o: drv.Opts{AllowDup: true}}, {target: "path", o: drv.Opts{AllowDup: true, StoreID: true}},
+	}},
+	// the same sequences (one shorter) over a target path at which a longer file already exists
+	{"pre-existing", c20Ops, 4, 6, []c20Cfg{
+		{target: "path", pre: true}, {target: "path", o: drv.Opts{V1: true}, pre: true}, {target: "path", o: c20Padded, pre: true},
+	}},
+	// identity / empty blocks, a key that is not a CID, every stream capability, explicit WriteAsCarV1(false)
+	{"blocks", []string{"put:a", "put:i", "put:e", "put:bad", "has:a", "has:i", "has:e", "cb1", "close"}, 4, 5, []c20Cfg{
+		{target: "path"}, {target: "path", o: drv.Opts{StoreID: true}}, {target: "path", o: drv.Opts{V1: true}},
+		{target: "path", o: drv.Opts{AllowDup: true, StoreID: true}},
+		{target: "stream"}, {target: "stream", o: drv.Opts{StoreID: true}}, {target: "stream", v1off: true},
+		{target: "stream-file"}, {target: "stream-file", o: drv.Opts{AllowDup: true}},
+		{target: "stream-file", v1off: true}, {target: "stream-file", o: drv.Opts{StoreID: true, DataPad: 3, IndexPad: 2}, v1off: true},
+		{target: "path", v1off: true}, {target: "path", o: drv.Opts{V1: true}, v1off: true},
+	}},
+	// the second Put entry point
+	{"bwo", []string{"bwo:a", "bwo-open:a", "bwo-open:b", "bwo-commit", "put:a", "put:b", "has:a", "cb", "cb1", "close"}, 4, 5, []c20Cfg{
+		{target: "path"}, {target: "path", o: drv.Opts{V1: true}}, {target: "stream"}, {target: "stream", o: drv.Opts{AllowDup: true}},
+		{target: "stream-file", v1off: true},
+	}},
+	// targets that cannot be opened until "fix"
+	{"failing-open", []string{"put:a", "put:b", "put:bad", "has:a", "cb", "cb1", "close", "fix"}, 4, 6, []c20Cfg{
+		{target: "path-nodir"}, {target: "path-nodir", o: drv.Opts{V1: true}}, {target: "path-isdir"}, {target: "path-isdir", o: c20Padded},
+	}},
+	// callbacks that register callbacks
+	{"reentrant", []string{"cbreg", "cbreg1", "cb", "cb1", "put:a", "put:b", "close"}, 5, 6, []c20Cfg{
+		{target: "path"}, {target: "stream"},
+	}},
+	// root sets
+	{"roots", c20Ops, 4, 5, []c20Cfg{
+		{target: "path", roots: "ab"}, {target: "path", roots: "nil"}, {target: "path", roots: "empty"},
+		{target: "path", o: drv.Opts{V1: true}, roots: "ab"}, {target: "path", o: drv.Opts{V1: true}, roots: "nil"},
+		{target: "path", o: c20Padded, roots: "aa"},
+		{target: "stream", roots: "ab"}, {target: "stream", roots: "nil"}, {target: "stream", roots: "empty"},
+		{target: "stream-file", v1off: true, roots: "ab"}, {target: "stream-file", v1off: true, roots: "nil"},
+	}},
+}
 
 func genC20(tier string, emit func(any)) {
-	depth := 5
-	if tier == "thorough" {
-		depth = 7
-	}
-	type cfg struct {
-		target string
-		o      drv.Opts
-	}
-	cfgs := []cfg{
-		{"path", drv.Opts{}}, {"path", drv.Opts{DataPad: 3, IndexPad: 2, Codec: "sorted"}}, {"path", drv.Opts{V1: true}},
-		{"stream", drv.Opts{}}, {"stream", drv.Opts{AllowDup: true}}, {"path", drv.Opts{AllowDup: true, StoreID: true}},
-	}
-	var rec func(cur []string)
-	rec = func(cur []string) {
-		if len(cur) == depth {
-			for _, c := range cfgs {
-				emit(C20Case{Target: c.target, Opts: c.o, Ops: append([]string{}, cur...)})
+	for _, f := range c20Families {
+		depth := f.quick
+		if tier == "thorough" {
+			depth = f.thoro
+		}
+		var rec func(cur []string)
+		rec = func(cur []string) {
+			if len(cur) == depth {
+				for _, c := range f.cfgs {
+					emit(C20Case{Target: c.target, Opts: c.o, Ops: append([]string{}, cur...), Pre: c.pre, V1Off: c.v1off, Roots: c.roots})
+				}
+				return
 			}
-			return
-		}
-		for _, op := range c20Ops {
-			rec(append(cur, op))
-		}
-	}
-	rec(nil)
-	// the same sequences (one shorter) over a target path at which a longer file already exists
-	depth--
-	cfgs = []cfg{{"path", drv.Opts{}}, {"path", drv.Opts{V1: true}}}
-	var rec2 func(cur []string)
-	rec2 = func(cur []string) {
-		if len(cur) == depth {
-			for _, c := range cfgs {
-				emit(C20Case{Target: c.target, Opts: c.o, Ops: append([]string{}, cur...), Pre: true})
+			for _, op := range f.ops {
+				rec(append(cur, op))
 			}
-			return
 		}
-		for _, op := range c20Ops {
-			rec2(append(cur, op))
-		}
+		rec(nil)
 	}
-	rec2(nil)
 }
 
 func init() {
@@ -255,14 +706,33 @@ func init() {
 		Gen:    genC20,
 		Run:    runC20,
 		Decode: kit.DecodeAs[C20Case],
-		Rule: "every sequence of the depth bound over {Put a, Put b, Has a, Has b, OnPut(always), OnPut(once), Close} (all shorter sequences are checked as prefixes, observers after every step) x {path, stream, path with a longer pre-existing file} x {CARv2, padded CARv2/sorted index, CARv1, duplicates allowed, identity stored}; " +
-			"differential oracle: a directly constructed storage.NewWritable driven with the same puts; non-trivial = sequence in which output started and a callback fired",
+		Rule: "seven families, each = every op sequence of the family's depth over the family's alphabet (all shorter sequences are checked as prefixes: observers after every step) x the family's configurations: " +
+			"core {Put a, Put b, Has a, Has b, OnPut(always), OnPut(once), Close} x {path, stream} x {CARv2, padded CARv2/sorted index, CARv1, duplicates allowed, duplicates+identity stored}; " +
+			"pre-existing (same alphabet, a longer file already at the path) x {CARv2, CARv1, padded CARv2}; " +
+			"blocks {Put a/identity i/empty e/non-CID key, Has a/i/e, OnPut(once), Close} x {path, plain stream, caller-opened file as stream (io.WriterAt)} x {default, StoreIdentityCIDs, CARv1, duplicates, explicit WriteAsCarV1(false) incl. on a plain stream where every Put must fail}; " +
+			"bwo {BlockWriteOpener open+write+commit, open a, open b, commit, Put a/b, Has a, OnPut x2, Close}; " +
+			"failing-open {Put a/b/non-CID, Has, OnPut x2, Close, fix} x {parent directory missing, path is a directory} (fix removes the obstacle); " +
+			"reentrant {OnPut(always/once) of a callback that registers a once-callback, OnPut x2, Put a/b, Close}; roots (core alphabet) x root sets {a b, nil, empty, a a}. " +
+			"Oracle: differential against a storage.NewWritable constructed at the first Put that can construct it and driven with the same puts (bytes after every step, Put/Has error-ness and Has value); before that no file, no change in the target's directory, zero Write/WriteAt calls on the stream; " +
+			"callback log = once per non-closed Put in registration order, once-callbacks exactly once (a callback registered from a callback may join the running or the next Put); " +
+			"ErrClosed from Has/Put/commit/Close after Close; recorded as outcome classes only (documented, but not part of the statement): output observed inside a callback equals the output before the Put, caller's stream never closed, no descriptor of the target left after Close; non-trivial = sequence in which output started and a callback fired",
 		Bound: func(tier string) map[string]any {
-			if tier == "thorough" {
-				return map[string]any{"depth": 7, "ops": 7, "configurations": 6}
+			m := map[string]any{}
+			for _, f := range c20Families {
+				d := f.quick
+				if tier == "thorough" {
+					d = f.thoro
+				}
+				m[f.name] = map[string]any{"depth": d, "ops": len(f.ops), "configurations": len(f.cfgs)}
 			}
-			return map[string]any{"depth": 5, "ops": 7, "configurations": 6}
+			return m
 		},
-		Assumptions: []string{"storage.NewWritable is the reference for the bytes (its own correctness is C01/C05)"},
+		Assumptions: []string{
+			"storage.NewWritable is the reference for the bytes (its own correctness is C01/C05)",
+			"roots and option slices are not mutated by the caller between construction and the first Put (the property does not say when they are captured)",
+			"the result of Has for an identity CID before the first Put, and of Has/Close after an initialisation that failed and never succeeded, is not asserted (not fixed by the property)",
+			"a path whose initialisation failed is retried by the next Put like a direct caller would (signature put-retry-after-failed-open); a stream whose writer cannot be constructed fails every Put",
+			"write faults of the stream are C16's subject and are not injected here",
+		},
 	})
 }
